@@ -132,24 +132,31 @@ impl Catalog {
 
     /// Hands out the next row id of a table and stores the incremented counter, as one step
     /// with respect to other allocators. Returns the relation as read and the allocated id.
+    ///
+    /// `replayed` is the id a replayed row already carries (recovery re-inserts logged rows
+    /// under their logged id): that id is used, and the counter is moved past it so that it
+    /// is never handed out again.
     pub(crate) fn allocate_row_id(
         &self,
         table_id: ObjectId,
+        replayed: Option<UInt64>,
         builder: &BtreeBuilder,
         snapshot: &Snapshot,
     ) -> CatalogResult<(Relation, UInt64)> {
         let _allocating = self.row_id_lock.lock();
-        let mut relation = self.get_relation(table_id, builder, snapshot)?;
-        let row_id = relation.next_row_id();
-        relation.increment_row_id();
-        self.update_relation(
-            table_id,
-            Some(relation.next_row_id().value()),
-            None,
-            None,
-            builder,
-            snapshot,
-        )?;
+        let relation = self.get_relation(table_id, builder, snapshot)?;
+        let next = relation.next_row_id();
+        let row_id = replayed.unwrap_or(next);
+        if row_id.value() >= next.value() {
+            self.update_relation(
+                table_id,
+                Some(row_id.value() + 1),
+                None,
+                None,
+                builder,
+                snapshot,
+            )?;
+        }
         Ok((relation, row_id))
     }
 
